@@ -107,18 +107,13 @@ func isErrValue(e ssa.Value, at *ssa.BasicBlock, depth int) bool {
 		}
 		// an error constructor of the module itself: every return of the callee is a
 		// non-nil error (errInvalidDirection(d) = Wrap(ErrInvalidDirection, d.String()))
-		if g := x.Common().StaticCallee(); g != nil && !x.Common().IsInvoke() && g.Blocks != nil && isIrismodFunc(g) &&
-			g.Signature.Results().Len() == 1 && lastResultIsError(g) {
-			rets := returnsOf(g)
-			all := len(rets) > 0
-			for _, r := range rets {
-				if !isErrValue(r.Results[0], r.Block(), depth+1) {
-					all = false
-				}
-			}
-			if all {
-				return true
-			}
+		if g := x.Common().StaticCallee(); g != nil && g.Signature.Results().Len() == 1 && errThroughCallee(x, 0, at, depth) {
+			return true
+		}
+	case *ssa.Extract:
+		// return claimFailed(err): the helper hands its (non-nil) argument back as the error
+		if c, ok := x.Tuple.(*ssa.Call); ok && errThroughCallee(c, x.Index, at, depth) {
+			return true
 		}
 	case *ssa.Phi:
 		if errNonNilAt(x, at) {
@@ -846,4 +841,40 @@ func recovers(f *ssa.Function) bool {
 		}
 	}
 	return false
+}
+
+// errThroughCallee: result #idx of the call of an irismod function is a non-nil error:
+// every return of the callee yields there an error value of its own or one of its
+// parameters whose argument at this call is a non-nil error.
+func errThroughCallee(x *ssa.Call, idx int, at *ssa.BasicBlock, depth int) bool {
+	g := x.Common().StaticCallee()
+	if g == nil || x.Common().IsInvoke() || g.Blocks == nil || !isIrismodFunc(g) || idx >= g.Signature.Results().Len() || !isErrorType(g.Signature.Results().At(idx).Type()) {
+		return false
+	}
+	rets := returnsOf(g)
+	if len(rets) == 0 {
+		return false
+	}
+	for _, r := range rets {
+		if idx >= len(r.Results) {
+			return false
+		}
+		v := r.Results[idx]
+		if p, ok := v.(*ssa.Parameter); ok {
+			k := -1
+			for i, q := range g.Params {
+				if q == p {
+					k = i
+				}
+			}
+			if k < 0 || k >= len(x.Common().Args) || !isErrValue(x.Common().Args[k], at, depth+1) {
+				return false
+			}
+			continue
+		}
+		if !isErrValue(v, r.Block(), depth+1) {
+			return false
+		}
+	}
+	return true
 }
